@@ -109,12 +109,13 @@ Definition t_g2 (O : oracles) (tr : bool) (bs : bytes) (a : N) : tres :=
 Definition t_sk (bs : bytes) (a : N) : tres :=
   t_array 32 bs a (fun b r => if sk_ok b then TOk (VBytes b) r a else TErr a).
 
+(* the 1 MiB + 6 KiB scratch reserve of clvmr's Allocator is transient (freed when the length is known): at most
+   one is alive at a time, so it is added ONCE to the reported peak (`scratch_reserve`) and not to the meter *)
 Definition t_prog (O : oracles) (tr : bool) (bs : bytes) (a : N) : tres :=
-  let scan := if tr then 0 else clvm_reserve in
   match prog_len O tr bs with
-  | None => TErr (a + scan + (if tr then 0 else clvm_per_byte * nlen bs))
+  | None => TErr (a + (if tr then 0 else clvm_per_byte * nlen bs))
   | Some n =>
-      let a1 := a + scan + (if tr then 0 else clvm_per_byte * N.min n (nlen bs)) in
+      let a1 := a + (if tr then 0 else clvm_per_byte * N.min n (nlen bs)) in
       if nlen bs <? n then TErr a1
       else if n <=? nlen bs                                  (* buf[..len as usize] *)
            then TOk (VBytes (firstn (N.to_nat n) bs)) (skipn (N.to_nat n) bs) (a1 + n)
@@ -185,43 +186,21 @@ End Seqs.
 Definition vec_cap0 (sz n : N) : N := if sz =? 0 then 0 else N.min (MiB2 / sz) n.
 
 (* ---------- hand-written codecs ---------- *)
+(* ProofOfSpace and the generator tail are sequences of the leaf parsers above; their meter is taken
+   conservatively from the plain mirrors of Versioned.v: everything they retain (the proof bytes; the program
+   copy, the Vec<u32> of references with its doubling, the raw buffer) is at most `fac` bytes per consumed
+   byte, and on an error at most the whole remaining input plus one unbacked 2 MiB reservation *)
+Definition gentail_fac : N := clvm_per_byte + 6.
 Definition t_pos (O : oracles) (tr : bool) (bs : bytes) (a : N) : tres :=
-  tbind (t_bytesn 32 bs a) (fun challenge r a =>
-  tbind (t_opt (t_g1 O tr) r a) (fun pool_pk r a =>
-  t_u_n 1 r a (fun prefix r =>
-  let version := prefix / 2 in
-  tbind (if N.land prefix 1 =? 1 then tbind (t_bytesn 32 r a) (fun c r' a' => TOk (VSome c) r' a')
-         else TOk VNone r a) (fun contract r a =>
-  tbind (t_g1 O tr r a) (fun plot_pk r a =>
-  if version =? 0 then
-    tbind (t_u 1 r a) (fun size r a =>
-    tbind (t_bytes r a) (fun proof r a =>
-    TOk (VList [challenge; pool_pk; contract; plot_pk; VInt 0; VInt 0; VInt 0; VInt 0; size; proof]) r a))
-  else if version =? 1 then
-    tbind (t_u 2 r a) (fun plot_index r a =>
-    tbind (t_u 1 r a) (fun meta_group r a =>
-    tbind (t_u 1 r a) (fun strength r a =>
-    tbind (t_bytes r a) (fun proof r a =>
-    if Bool.eqb (is_some pool_pk) (is_some contract) then TErr a
-    else TOk (VList [challenge; pool_pk; contract; plot_pk; VInt 1; plot_index; meta_group; strength; VInt 0; proof]) r a))))
-  else TErr a))))).
-
+  match dec_pos O tr bs with
+  | Some (v, r) => TOk v r (a + (nlen bs - nlen r))
+  | None => TErr (a + nlen bs)
+  end.
 Definition t_gentail (O : oracles) (tr : bool) (bs : bytes) (a : N) : tres :=
-  t_u_n 1 bs a (fun prefix r =>
-  let version := prefix / 2 in
-  let has := N.land prefix 1 =? 1 in
-  if version =? 0 then
-    tbind (if has then tbind (t_prog O tr r a) (fun p r' a' => TOk (VSome p) r' a') else TOk VNone r a) (fun gen r a =>
-    t_u_n 4 r a (fun n r =>
-    let a0 := a + vec_cap0 4 n * 4 in
-    if n * 4 <=? nlen r then
-      tbind (t_vec_loop (t_u 4) (N.to_nat n) 4 (vec_cap0 4 n) 0 [] r a0) (fun refs r a =>
-      TOk (VList [gen; refs; VNone; VInt 0]) r a)
-    else TErr a0))
-  else if version =? 1 then
-    tbind (if has then t_lenpref r a (fun b r' a' => TOk (VSome (VList (ints_of_bytes b))) r' a') else TOk VNone r a) (fun buf r a =>
-    TOk (VList [VNone; VList []; buf; VInt 1]) r a)
-  else TErr a).
+  match dec_gentail O tr bs with
+  | Some (v, r) => TOk v r (a + gentail_fac * (nlen bs - nlen r))
+  | None => TErr (a + MiB2 + gentail_fac * nlen bs)
+  end.
 
 (* ---------- the instrumented generic decoder ---------- *)
 Fixpoint tdecode (O : oracles) (tr : bool) (t : ty) (bs : bytes) (a : N) {struct t} : tres :=
@@ -241,9 +220,10 @@ Fixpoint tdecode (O : oracles) (tr : bool) (t : ty) (bs : bytes) (a : N) {struct
         (* the push loop runs until an element fails; when every element needs at least one byte
            it cannot get past nlen r + 1 iterations, so the counter is capped there (the elements
            parsed before the failure still allocate, as in the Rust) *)
-        let n' := if min_size x =? 0 then n else N.min n (nlen r + 1) in
+        let fits := (min_size x =? 0) || (n <=? nlen r) in
+        let n' := if fits then n else nlen r + 1 in
         match t_vec_loop (tdecode O tr x) (N.to_nat n') sz cap 0 [] r a0 with
-        | TOk v r' a' => if n' =? n then TOk v r' a' else TErr a'
+        | TOk v r' a' => if fits then TOk v r' a' else TErr a'
         | other => other
         end)
   | Tup ts => t_seq (tdecode O tr) ts [] bs a
@@ -279,7 +259,7 @@ Definition t_from_bytes (O : oracles) (tr : bool) (t : ty) (bs : bytes) : fres :
   end.
 
 (* ---------- the bound ---------- *)
-(* nesting depth of heap-allocating containers (each may hold one not-yet-backed 2 MiB reservation) *)
+(* nesting depth of vectors (each may hold one not-yet-backed 2 MiB reservation when parsing fails) *)
 Fixpoint vdepth (t : ty) : N :=
   match t with
   | Vec a => 1 + vdepth a
@@ -287,7 +267,7 @@ Fixpoint vdepth (t : ty) : N :=
   | Tup ts => fold_right (fun t acc => N.max (vdepth t) acc) 0 ts
   | Struct _ _ fs => fold_right (fun f acc => N.max (vdepth (snd f)) acc) 0 fs
   | Opt2 a b => N.max (vdepth a) (vdepth b)
-  | Prog | GenTail _ => 1
+  | GenTail _ => 1
   | _ => 0
   end.
 
@@ -300,9 +280,40 @@ Fixpoint cfac (t : ty) : N :=
   | Tup ts => fold_right (fun t acc => N.max (cfac t) acc) 1 ts
   | Struct _ _ fs => fold_right (fun f acc => N.max (cfac (snd f)) acc) 1 fs
   | Opt2 a b => N.max (cfac a) (cfac b)
-  | Bytes | Str | PoS => 1
   | Prog => 1 + clvm_per_byte
-  | GenTail _ => 1 + clvm_per_byte + 5
+  | GenTail _ => gentail_fac
   | _ => 1
   end.
+
+Section HasProg.
+  Variable p : ty -> bool.
+  Fixpoint any_t (ts : list ty) : bool := match ts with [] => false | t :: r => p t || any_t r end.
+  Fixpoint any_f (fs : list (string * ty)) : bool := match fs with [] => false | f :: r => p (snd f) || any_f r end.
+End HasProg.
+Fixpoint has_prog (t : ty) : bool :=
+  match t with
+  | Prog | GenTail _ => true
+  | Opt a | Vec a | Arr _ a => has_prog a
+  | Tup ts => any_t has_prog ts
+  | Struct _ _ fs => any_f has_prog fs
+  | Opt2 a b => has_prog a || has_prog b
+  | _ => false
+  end.
+Definition scratch_reserve (tr : bool) (t : ty) : N := if negb tr && has_prog t then clvm_reserve else 0.
+
+(* peak = meter + the one transient scratch reserve;  bound = one 2 MiB reservation per nesting level,
+   one for the scratch reserve, and cfac bytes per input byte *)
 Definition alloc_bound (t : ty) (len : N) : N := (vdepth t + 1) * MiB2 + cfac t * len.
+
+(* ---------- witness of finding F-C14-1 ---------- *)
+(* a v2 ProofOfSpace (prefix byte 0b11: contract puzzle hash present, version 1) with the infinity plot key and a
+   one-byte proof: decodable in both modes, re-encodes to itself, and hash() panics when chia-pos2 finds no
+   quality string (toy_oracles: quality = None) *)
+Definition f_c14_1_witness : bytes :=
+  repeat_byte 32 x00 ++ [x00] ++ [x03] ++ repeat_byte 32 x11 ++ (xc0 :: repeat_byte 47 x00)
+  ++ [x00; x07; x01; x02] ++ [x00; x00; x00; x01; xaa].
+
+Definition f_c14_1_value : value :=
+  VList [VBytes (repeat_byte 32 x00); VNone; VSome (VBytes (repeat_byte 32 x11)); VBytes (xc0 :: repeat_byte 47 x00);
+         VInt 1; VInt 7; VInt 1; VInt 2; VInt 0; VBytes [xaa]].
+
